@@ -27,6 +27,21 @@ def pieceOf (j : Json) : Piece :=
   | "s" => .single (XB.unhex (jstr j "raw"))
   | _ => .unquoted (XB.unhex (jstr j "raw"))
 
+def asciiB (s : String) : Bytes := s.toUTF8.toList.map UInt8.toNat
+
+/-- the one normalisation `parse.Parse` applies to the tree (ast.go, ChildrenByType on a choice): a container,
+    leaf, leaf-list or list written directly under a choice is wrapped, where it stands, in a case node of the
+    same name and position -/
+partial def wrapCases : Stmt → Stmt
+  | .mk kw arg pos subs =>
+    let subs := subs.map wrapCases
+    if kw = asciiB "choice" then
+      .mk kw arg pos (subs.map fun c => match c with
+        | .mk k a p _ =>
+          if k = asciiB "container" || k = asciiB "leaf" || k = asciiB "leaf-list" || k = asciiB "list"
+          then .mk (asciiB "case") a p [c] else c)
+    else .mk kw arg pos subs
+
 /-- ytree / yfuzz: parse the text; yarg: additionally the RFC value of the argument pieces -/
 def handle (j : Json) : List (String × Json) :=
   let input := XB.unhex (jstr j "hex")
@@ -46,6 +61,11 @@ def handle (j : Json) : List (String × Json) :=
     [("m", marg), ("s", "arg:" ++ hexOf v), ("dc", Json.bool (ps.any pieceDontCare))]
   else if jhas j "expect" then
     [("m", m), ("s", jstr j "expect")]
+  else if jbool j "real" then
+    let mr : String := match r with
+      | .ok root _ _ => s!"ok leak=0 " ++ dumpStmt input (wrapCases root)
+      | _ => m
+    [("m", mr), ("s", mr)]
   else if jbool j "verdict" then
     let v : String := match r with | .ok _ _ _ => "ok" | _ => m
     if jhas j "triple" then
